@@ -91,13 +91,13 @@ func genString(r *rand.Rand, key string) string {
 func genInt(r *rand.Rand, key string) int64 {
 	switch key {
 	case "amf_ngap_port", "stg_ngap_port":
-		return int64([]int{0, 1, 38412, 65535, r.Intn(65536)}[r.Intn(5)])
+		return int64([]int{0, 1, 38412, 65535, r.Intn(65536), -1, 65536}[r.Intn(7)])
 	case "gnb_bitlength":
-		return int64(22 + r.Intn(11))
+		return []int64{22, 24, 32, int64(22 + r.Intn(11)), 0, 21, 33, 1 << 40}[r.Intn(8)]
 	case "sst":
-		return int64([]int{0, 1, 255, r.Intn(256)}[r.Intn(4)])
+		return []int64{0, 1, 255, int64(r.Intn(256)), -1, 256, 1<<31 - 1, -(1 << 31)}[r.Intn(8)]
 	default:
-		return int64([]int{0, 1, 2, 10, 10000, 1 << 20, r.Intn(1000)}[r.Intn(7)])
+		return []int64{0, 1, 2, 10, 10000, 1 << 20, int64(r.Intn(1000)), -1, 1 << 31, 1 << 40}[r.Intn(10)]
 	}
 }
 
@@ -159,21 +159,53 @@ func main() {
 		var lines []string
 		keys := append(append([]string{}, stringKeys...), intKeys...)
 		r.Shuffle(len(keys), func(a, b int) { keys[a], keys[b] = keys[b], keys[a] }) // key order in the file must not matter
-		for _, k := range keys {
+		// every fifth file leaves one key out (the procedures then receive the zero value); scalars are written double-quoted, single-quoted
+		// or followed by a comment in turn (the shipped file uses plain scalars with comments behind them)
+		drop := ""
+		if i%5 == 4 {
+			drop = keys[(i/5)%len(keys)]
+		}
+		for kj, k := range keys {
 			isInt := false
 			for _, ik := range intKeys {
 				if ik == k {
 					isInt = true
 				}
 			}
+			style := (i + kj) % 3
 			if isInt {
 				v := genInt(r, k)
+				if k == drop {
+					assignI[k] = 0
+					continue
+				}
 				assignI[k] = v
-				lines = append(lines, fmt.Sprintf("  %s: %d", k, v))
+				if style == 2 {
+					lines = append(lines, fmt.Sprintf("  %s: %d #%d", k, v, v+1))
+				} else {
+					lines = append(lines, fmt.Sprintf("  %s: %d", k, v))
+				}
 			} else {
 				v := genString(r, k)
+				if k == drop {
+					assignS[k] = []int{}
+					continue
+				}
 				assignS[k] = ev.Ints([]byte(v))
-				lines = append(lines, fmt.Sprintf("  %s: %s", k, q(v)))
+				printable := true
+				for _, c := range []byte(v) {
+					if c < 32 || c >= 127 {
+						printable = false
+					}
+				}
+				switch {
+				case style == 1 && printable:
+					lines = append(lines, fmt.Sprintf("  %s: '%s'", k, strings.ReplaceAll(v, "'", "''")))
+				case style == 2:
+					lines = append(lines, fmt.Sprintf("  %s: %s # %s", k, q(v), k))
+				default:
+					lines = append(lines, fmt.Sprintf("  %s: %s", k, q(v)))
+				}
 			}
 		}
 		os.WriteFile("config.yaml", []byte("info:\n  version: 0.9.0\n\nconfiguration:\n"+strings.Join(lines, "\n")+"\n"), 0644)
